@@ -16,13 +16,14 @@ def run(res, tier, replay=None):
     c02.run_r4(prog, res, cg)
     c02.run_r7(prog, res, cg)
     c02.run_r8(prog, res)
+    c02.run_r9(prog, res, cg, floor=8)
     res.assumptions = common.ASSUMPTIONS
     res.explanation = (
         "C02, structural clauses only. R1: every function that links a sexp_gc_var_t node into ctx->saves has an empty "
         "link stack at every return on every CFG path (path-sensitive for stable correlated predicates), never unlinks an "
         "unlinked node, never links twice. R5: each row of _sexp_type_specs agrees with the ASTRecordLayout of the union "
         "member it describes (traced words are exactly the sexp fields; untraced sexp fields must be weak or listed). "
-        "R3a/R3b (under-approximating, must-allocate semantics): an object returned by a function all of whose returns are fresh allocations is never (a) kept only in an unrooted local across a call that allocates on every path and used afterwards, nor (b) passed directly to a parameter that its callee reads after such a call - under the property's own quantifier (a collection before every allocation) each report is a reachable reclamation. R6: every object word emitted into bytecode with sexp_emit_word is, on every path, also pushed on the literal list by bytecode_preserve with the same expression. R4: in every VM case, sexp_context_top(ctx) has been set to at least the current top (tracked as published-minus-top through pushes/pops) before each call that may reach the allocator. R7: no call that may collect is handed a traced slot reinterpreted as a C string (objects copied from the static tables must not keep raw pointers in traced slots across a collection point). R8: sexp_release_object unlinks at most one registration per call (the preservation list counts). Not decided: schedule independence of results as such, embedder roots, Boehm/conservative configurations.")
+        "R3a/R3b (under-approximating, must-allocate semantics): an object returned by a function all of whose returns are fresh allocations is never (a) kept only in an unrooted local across a call that allocates on every path and used afterwards, nor (b) passed directly to a parameter that its callee reads after such a call - under the property's own quantifier (a collection before every allocation) each report is a reachable reclamation. R6: every object word emitted into bytecode with sexp_emit_word is, on every path, also pushed on the literal list by bytecode_preserve with the same expression. R4: in every VM case, sexp_context_top(ctx) has been set to at least the current top (tracked as published-minus-top through pushes/pops) before each call that may reach the allocator. R7: no call that may collect is handed a traced slot reinterpreted as a C string (objects copied from the static tables must not keep raw pointers in traced slots across a collection point). R8: sexp_release_object unlinks at most one registration per call (the preservation list counts). R9: a C pointer into the data of a fresh object known only through one local is not used after that local was overwritten and a call that may allocate followed. Not decided: schedule independence of results as such, embedder roots, Boehm/conservative configurations.")
     if tier == "thorough":
         # C02 quantifies over configurations: re-run the structural rules on the core units under each
         common.config_matrix(res, lambda p, r: (c02.run_r1(p, r), f3.r5_type_table(p, r), c02.run_r6(p, r)), violation=True)
@@ -33,5 +34,6 @@ def run(res, tier, replay=None):
             "R4": lambda p, r: c02.run_r4(p, r, callgraph.CallGraph(p)),
             "R7": lambda p, r: c02.run_r7(p, r, callgraph.CallGraph(p)),
             "R8": lambda p, r: c02.run_r8(p, r),
+            "R9": lambda p, r: c02.run_r9(p, r, callgraph.CallGraph(p)),
             "R3": lambda p, r: (c02.run_r3b(p, r, callgraph.CallGraph(p)), c02.run_r3a(p, r, callgraph.CallGraph(p))),
         })
